@@ -96,21 +96,52 @@ def runRoot (one : Bool) (s : String) : String :=
     if st.bad then "MODEL-ASSERT" else
     let started := st.started.reverse
     let errs := joinOr "." ((sortNats st.errs).map toString)
+    let fin := s!" end={Book.highestPriority st.rm}"
     if one then
-      joinOr "." (started.map fun (i, hp) => s!"{i}@{hp}") ++ " err=" ++ errs
+      joinOr "." (started.map fun (i, hp) => s!"{i}@{hp}") ++ " err=" ++ errs ++ fin
     else
-      "set=" ++ joinOr "." ((sortNats (started.map (·.1))).map toString) ++ " err=" ++ errs
+      "set=" ++ joinOr "." ((sortNats (started.map (·.1))).map toString) ++ " err=" ++ errs ++ fin
 
 def runCascade (workers : String) (roots : String) : String :=
   let rs := roots.splitOn "|"
   let nodes : Nat := (rs.map fun r => (r.splitOn ",").length).foldl (· + ·) 0
-  "|".intercalate (rs.map (runRoot (workers == "1"))) ++ (if nodes ≥ 3 then "\tnt=1" else "")
+  "|".intercalate (rs.map (runRoot (workers == "1"))) ++ " hp=ok" ++ (if nodes ≥ 3 then "\tnt=1" else "")
+
+/-- `Q`: sortutil.PriorityQueue driven directly; the model is the real representation `HPQ`.
+    ops: `+<prio>` Push (value = number of the push), `-` Pop, `k` Peek, `c` Clear.
+    Result per op: `L` / `p<val>` / `k<val>` / `c` (`n` = nil), followed by the slice layout
+    `[val:prio,…]` after every op when there are at most 48 ops, otherwise only once at the end. -/
+def layout (q : HPQ) : String :=
+  "[" ++ ",".intercalate (q.heap.map fun it => s!"{it.val}:{it.prio}") ++ "]"
+
+def runQ (ops : List String) : String :=
+  let every := ops.length ≤ 48
+  let rec go (q : HPQ) (n : Nat) (ops : List String) (acc : List String) : List String × HPQ :=
+    match ops with
+    | [] => (acc.reverse, q)
+    | op :: rest =>
+      let (tok, q', n') :=
+        if op.startsWith "+" then
+          ("L", q.push n ((op.drop 1).toString.toInt?.getD 0), n + 1)
+        else if op == "-" then
+          match q.pop with
+          | some (it, q') => (s!"p{it.val}", q', n)
+          | none => ("pn", q, n)
+        else if op == "k" then
+          match q.peek with
+          | some it => (s!"k{it.val}", q, n)
+          | none => ("kn", q, n)
+        else ("c", q.clear, n)
+      go q' n' rest ((if every then tok ++ layout q' else tok) :: acc)
+  let (out, q) := go {} 0 ops []
+  " ".intercalate out ++ " end" ++ layout q ++ (if ops.length ≥ 4 then "\tnt=1" else "")
 
 def runCase (payload : String) : String :=
   match payload.splitOn " " with
   | "R" :: flag :: rules => runRules flag rules
   | "S" :: rules => runRules "1" rules
   | "B" :: ops => runBook ops
+  | "Q" :: ops => runQ ops
   | ["K", workers, roots] => runCascade workers roots
   | _ => "bad-payload"
 
@@ -125,9 +156,11 @@ def traceCase (payload : String) : String :=
   match (payload.splitOn " ").mapM parseQEv with
   | none => "bad-payload"
   | some evs =>
-    match checkTrace [] 0 evs with
-    | none => "ok"
-    | some k => s!"bad {k}"
+    -- replayed on the abstract queue and on the real representation (container/heap slice)
+    match checkTrace [] 0 evs, checkTraceH [] 0 evs with
+    | none, none => "ok"
+    | some k, _ => s!"bad {k}"
+    | none, some k => s!"bad-heap {k}"
 
 def run (args : List String) : IO Unit :=
   if args == ["trace"] then lineLoop traceCase else lineLoop runCase
